@@ -318,6 +318,19 @@ def fat_slices(fn):
     return {T: fn.reach([0], cut_edges=specialise_enum(fn, is_fsi, ["Fat16", "Fat32"], T)) for T in ("Fat16", "Fat32")}
 
 
+def fat_views(fn):
+    """Per FAT type, fn as it is when self.fat_specific_info is of that type (ev.restricted_view): every match on the type is
+    decided, variables chosen per type are constants.  Code parameterised by a per-type variable (`entry_size`) and code
+    written out twice in the arms of one match look the same in the views."""
+    c = getattr(fn, "_fat_views", None)
+    if c is None:
+        from .ev import specialise_enum, restricted_view
+        is_fsi = lambda x: x[0] == "place" and x[2] and [e for e in x[2] if isinstance(e, str) and e != "*"][-1:] == ["fat_specific_info"]
+        c = {T: restricted_view(fn, specialise_enum(fn, is_fsi, ["Fat16", "Fat32"], T)) for T in ("Fat16", "Fat32")}
+        fn._fat_views = c
+    return c
+
+
 def _update_fat_calls(fn):
     out = []
     for b, t in fn.calls():
@@ -500,7 +513,9 @@ def ft3(F, R):
             if not arms0[arm]:
                 R.bad(fn, arm + ":arm", "no %s arm found" % arm, kind="anchor-missing")
                 continue
-            sig = _arm_consts(fn, arms[arm])
+            # (read off the function as it is for this FAT type: a width kept in a per-type variable is a constant there)
+            fv = fat_views(fn)[arm]
+            sig = _arm_consts(fv, set(fv.live_blocks()))
             k = 2 if arm == "Fat16" else 4
             # every width indicator that is present says k, and the essential ones are present: the byte offset is
             # cluster * k, the entry is read / written with the k-byte accessor, and whatever delimits one entry in the
